@@ -54,7 +54,9 @@ TRUSTED = [
     "wraps k+b to the opposite face and the finite difference of a non-periodic k.p Hamiltonian is meaningless "
     "(reported as a remark, outside the property's quantifier 'k-points inside the box')",
 ]
-RULE = ("polynomial Hamiltonians of degree 0-4 (1-3 bands, Hermitian, rational coefficients in the correspondence), "
+RULE = ("every run visits hexagonal(120deg)/bcc/fcc/rhombohedral/unimodular REAL lattices with array-valued cubic "
+        "Hamiltonians and fully numerical derivatives (stencils with +-b pairs whose reduced components sum to 0 are "
+        "counted); polynomial Hamiltonians of degree 0-4 (1-3 bands, Hermitian, rational coefficients in the correspondence), "
         "trigonometric (smooth) Hamiltonians, lattices cubic/ortho/hex/triclinic/fcc/bcc given as kmax, real_lattice "
         "or recip_lattice, finite_diff_dk in {default 1e-4, 3e-5, 1e-3, 1e-2, dyadic}, Cartesian and reduced "
         "conventions, analytic derivatives supplied up to level 0-3.  non-trivial = degree >= 2 and a non-cubic "
@@ -471,9 +473,29 @@ def oracle(ctx, scale):
     oracle_calculators(ctx, scale, rs)
 
 
+def bravais_tour(rs):
+    """classic Bravais lattices given as REAL lattices (kmax=None) + a random unimodular distortion; visited on every
+    run so that non-orthogonal stencils (shells containing b_i - b_j, i.e. +-pairs whose reduced components sum to 0)
+    are always exercised"""
+    a = 2 * np.pi
+    hex120 = np.array([[1, 0, 0], [-0.5, np.sqrt(3) / 2, 0], [0, 0, 1.3]]) * a
+    bcc = np.array([[-1, 1, 1], [1, -1, 1], [1, 1, -1]]) / 2.0 * a * 1.2
+    fcc = np.array([[0, 1, 1], [1, 0, 1], [1, 1, 0]]) / 2.0 * a * 1.5
+    rhomb = (np.eye(3) + 0.25 * (np.ones((3, 3)) - np.eye(3))) * a
+    U = np.eye(3, dtype=int)
+    for _ in range(4):      # random unimodular integer matrix
+        i, j = rs.choice(3, 2, replace=False)
+        U[i] += int(rs.choice([-1, 1])) * U[j]
+    uni = U.dot(np.diag([1.0, 1.1, 0.9])) * a
+    return [(dict(kmax=None, real_lattice=L), nm) for L, nm in
+            ((hex120, "real_lattice hexagonal 120deg"), (bcc, "real_lattice bcc"), (fcc, "real_lattice fcc"),
+             (rhomb, "real_lattice rhombohedral"), (uni, "real_lattice unimodular distortion"))]
+
+
 def oracle_derivs(ctx, scale, rs):
     worst = [0.0, 0.0, 0.0]
-    for it in range(ctx.n(10, 120) * scale):
+    tour = bravais_tour(rs)
+    for it in range(ctx.n(10, 120) * scale + len(tour)):
         nw = int(rs.randint(1, 4))
         smooth = rs.rand() < 0.2
         deg = int(rs.randint(0, 5))
@@ -482,6 +504,10 @@ def oracle_derivs(ctx, scale, rs):
         cart = bool(rs.rand() < 0.5)
         dk = [None, None, None, 3e-5, 1e-3, 1e-3, 1e-2][int(rs.randint(0, 7))]
         levels = int(rs.choice([0, 0, 0, 1, 2]))
+        if it < len(tour):      # the Bravais tour: fully numerical derivatives of a cubic polynomial, array-valued (nw >= 2)
+            latt, ldesc = tour[it]
+            nw, smooth, deg, levels, dk = 2, False, 3, 0, safe_dk(latt)
+            ham = rand_polyham(rs, nw, deg)
         if rs.rand() < 0.05:   # very small reciprocal box (find_shells uses absolute thresholds)
             latt, ldesc = dict(kmax=float(rs.choice([0.05, 0.02, 0.01]))), "kmax small"
             dk = None
@@ -508,6 +534,9 @@ def oracle_derivs(ctx, scale, rs):
         with ctx.attempt("SystemKP (construction / derivatives)", case, kf=KF_SMALL if small else None):
             s = build_kp(ham, latt, cart, dk=dk, levels=levels)
             ctx.count(f"oracle.{'trig' if smooth else 'poly'}.{'cart' if cart else 'red'}.levels={levels}.nb={len(s.wk)}")
+            bki = np.round(s.bk_red / (1e-4 if dk is None else dk)).astype(int)
+            ctx.count("oracle.stencil." + ("has +-b pairs with sum(b_reduced)=0" if np.any(bki.sum(axis=1) == 0)
+                                           else "all pairs have sum(b_reduced)!=0"))
             msg = stencil_contract(s.wk, s.bk_cart)
             if msg:
                 ctx.fail("find_shells: " + msg, case, kf=KF_SMALL if small else None)
